@@ -53,6 +53,7 @@ type Run struct {
 
 	Obs      []int `json:"obs"`
 	ObsErr   string `json:"err,omitempty"`
+	ErrClass string `json:"errclass,omitempty"` // innermost cause, read off the whole (multi-line) error text
 	ObsOK    bool  `json:"ok"`
 	PlainObs []int `json:"plain_obs,omitempty"`
 	PlainOK  bool  `json:"plain_ok,omitempty"`
@@ -191,6 +192,9 @@ func runCase(c *Case) {
 		}
 		report(o, "resolve")
 		r.ObsOK, r.Obs, r.ObsErr = o.ok, o.pids, firstLine(o.err)
+		if !o.ok {
+			r.ErrClass = errorClass(o.err)
+		}
 		runsTotal++
 		if o.ok {
 			runsOK++
@@ -340,6 +344,7 @@ func classOf(c *Case) string {
 
 func add(w *gal.Writer, c *Case) {
 	runCase(c)
+	recordShapes(c)
 	triv := true
 	for _, r := range c.Runs {
 		if r.ObsOK && len(r.Obs) > 1 {
@@ -374,8 +379,23 @@ func stageC02(dir string, seed uint64, tier string) error {
 	for i := 0; i < nGen/4; i++ {
 		add(w, genSharedProvide(r, tier))
 	}
+	// session 6: the wider envelope of c02_closed_multi_version (after everything older, same reason)
+	nMulti := 100
+	if tier == "thorough" {
+		nMulti = 1500
+	}
+	for i := 0; i < nMulti; i++ {
+		add(w, genMulti(r, tier))
+	}
 	stat(w)
-	return w.Flush()
+	statShapes()
+	if err := w.Flush(); err != nil {
+		return err
+	}
+	if miss := missingShapes(); len(miss) > 0 {
+		return fmt.Errorf("generator self-check: shapes that do not occur in this run: %v", miss)
+	}
+	return nil
 }
 
 func stageC14(dir string, seed uint64, tier string) error {
